@@ -13,8 +13,9 @@ LEVEL = 'fault_enumeration'
 VARIANT = 'plain'
 TOOLS = [('plain', 'abidw'), ('plain', 'abidiff'), ('plain', 'abicompat')]
 EIO = 5
-DOCS = ['tiny_v0', 'shapes_v0', 'shapes_v1', 'alias_v1', 'cxx_v1', 'libtest23', 'tu:test10', 'tu:test18']
-TU_DOCS = {'tu:test10': 'tests/data/test-read-write/test10.xml', 'tu:test18': 'tests/data/test-read-write/test18.xml'}   # abi-instr (translation unit) documents
+DOCS = ['tiny_v0', 'shapes_v0', 'shapes_v1', 'alias_v1', 'cxx_v1', 'libtest23', 'tu:test10', 'tu:test18', 'grp:shapes-tiny', 'grp:three']
+TU_DOCS = {'tu:test10': 'tests/data/test-read-write/test10.xml', 'tu:test18': 'tests/data/test-read-write/test18.xml',   # abi-instr (translation unit) documents
+           'grp:shapes-tiny': '@DATA@/abixml/group-shapes-tiny.xml', 'grp:three': '@GEN@'}   # abi-corpus-group documents (abidw only writes them for kernels)
 ASSUMPTIONS = ['"cannot be loaded" is decided by libxml2\'s DOM parser run by the harness (not by libabigail): not well-formed up to the root end tag, '
                'or root element not abi-corpus/abi-corpus-group/abi-instr, or empty/missing, or a read returned EIO/early EOF',
                'damage that leaves a well-formed ABI document is exempt here (memory safety of such inputs is C33)',
@@ -76,7 +77,17 @@ def make_items(ctx, only=None):
         if only and name != only:
             continue
         if name in TU_DOCS:
-            p = os.path.join(C.REPO, TU_DOCS[name])
+            if TU_DOCS[name] == '@GEN@':
+                # a three-corpus group assembled from pool documents
+                parts = [open(doc(n)[0], 'rb').read().decode() for n in ('tiny_v0', 'shapes_v0', 'alias_v1')]
+                ind = lambda t: ''.join('  ' + l + '\n' for l in t.splitlines())
+                d = os.path.join(ctx.rundir, 'docs'); os.makedirs(d, exist_ok=True)
+                p = os.path.join(d, 'group-three.xml')
+                open(p, 'w').write("<abi-corpus-group version='2.1' architecture='elf-amd-x86_64'>\n" + ''.join(ind(x) for x in parts) + "</abi-corpus-group>\n")
+            elif TU_DOCS[name].startswith('@DATA@'):
+                p = TU_DOCS[name].replace('@DATA@', os.path.join(C.VERIF, 'pool', 'data'))
+            else:
+                p = os.path.join(C.REPO, TU_DOCS[name])
             body = open(p, 'rb').read()
             if not loadable(body):
                 raise C.InfraError('the intact workload document %s is not loadable according to the judge' % name)
